@@ -324,6 +324,8 @@ type Session struct {
 func newSession(timeoutMs int) (*Session, error) {
 	s := &Session{timeout: timeoutMs, dead: true}
 	s.send0(fmt.Sprintf("(set-option :timeout %d)\n", timeoutMs))
+	// element addressing (see ixTerm): ix(o, i) is o + i
+	s.send0("(declare-fun ix (Int Int) Int)\n(assert (forall ((|$o| Int) (|$i| Int)) (! (= (ix |$o| |$i|) (+ |$o| |$i|)) :pattern ((ix |$o| |$i|)))))\n")
 	return s, nil
 }
 
